@@ -236,6 +236,39 @@ def inline_fresh_structs(tree: ast.Module, ref_mod: dict) -> None:
     ast.fix_missing_locations(tree)
 
 
+def inline_fresh_regexes(tree: ast.Module, ref_mod: dict) -> None:
+    """NAME = re.compile(<literal pattern>) at module level, unknown to the reference: NAME.sub(r, s) -> re.sub(P, r, s), likewise
+    match/search/fullmatch/findall/split with the pattern as first argument; the definition goes when nothing else uses it."""
+    known = set(ref_mod.get("consts", []))
+    fresh = {}
+    for st in tree.body:
+        if isinstance(st, ast.Assign) and len(st.targets) == 1 and isinstance(st.targets[0], ast.Name) and st.targets[0].id not in known \
+                and isinstance(st.value, ast.Call) and _u(st.value.func) == "re.compile" and len(st.value.args) == 1 and not st.value.keywords \
+                and isinstance(st.value.args[0], ast.Constant) and isinstance(st.value.args[0].value, str):
+            fresh[st.targets[0].id] = (st.value.args[0], st)
+    if not fresh:
+        return
+    stores = {}
+    for n in ast.walk(tree):
+        if isinstance(n, ast.Name) and isinstance(n.ctx, (ast.Store, ast.Del)):
+            stores[n.id] = stores.get(n.id, 0) + 1
+    fresh = {k: v for k, v in fresh.items() if stores.get(k, 0) == 1}
+
+    class _R(ast.NodeTransformer):
+        def visit_Call(self, node):
+            self.generic_visit(node)
+            f = node.func
+            if isinstance(f, ast.Attribute) and isinstance(f.value, ast.Name) and f.value.id in fresh and f.attr in ("sub", "subn", "match", "search", "fullmatch", "findall", "split", "finditer"):
+                return ast.copy_location(ast.Call(func=ast.Attribute(value=ast.Name(id="re", ctx=ast.Load()), attr=f.attr, ctx=ast.Load()),
+                                                  args=[copy.deepcopy(fresh[f.value.id][0])] + node.args, keywords=node.keywords), node)
+            return node
+    _R().visit(tree)
+    for name, (_p, st) in fresh.items():
+        if not any(isinstance(x, ast.Name) and x.id == name and isinstance(x.ctx, ast.Load) for x in ast.walk(tree)):
+            tree.body = [x for x in tree.body if x is not st]
+    ast.fix_missing_locations(tree)
+
+
 def inline_fresh_constants(tree: ast.Module, ref_mod: dict) -> None:
     known = set(ref_mod.get("consts", []))
     known_cls = ref_mod.get("class_consts", {})
